@@ -13,7 +13,8 @@
 From Coq Require Import List ZArith Bool.
 From SC Require Import Base.Res
   Desc.SpecPropModel Desc.SpecPropSpec Desc.SpecPropProofs
-  Desc.ClassPropModel Desc.ClassPropSpec Desc.ClassPropProofs Corr.SpecPropCorr.
+  Desc.ClassPropModel Desc.ClassPropSpec Desc.ClassPropProofs
+  Desc.SpecPropDepsModel Desc.SpecPropDepsSpec Desc.SpecPropDepsProofs Corr.SpecPropCorr.
 Import ListNotations.
 
 Section C12_spec_property.
@@ -114,7 +115,77 @@ Section C12_spec_property.
     Forall2 (fun x r => forall v, x = Read -> r = Ok (OVal v) -> tyok v = true)
             xs (fst (m_run c (SpecManaged i) m xs)).
   Proof. exact (run_managed_typed is_sentinel fget fset fdel poke prepare tyok). Qed.
+
+  (* overridable = false, cache = false: the property can hold neither an
+     override nor a cached value, so whatever sits in the instance __dict__
+     under the property's own name (e.g. the backing value of a custom setter
+     that stores it there) is never served and never written: outcomes and
+     underlying state of every history are those of an instance without that
+     entry -- every read is the getter's result on current state (through
+     preparer and type check on a managed attribute). *)
+  Theorem C12_own_name_entry_is_not_a_stored_value : forall (c : cfg) (o : owner) xs m1 m2,
+    overridable c = false -> cache c = false -> mu m1 = mu m2 ->
+    fst (m_run c o m1 xs) = fst (m_run c o m2 xs) /\
+    mu (snd (m_run c o m1 xs)) = mu (snd (m_run c o m2 xs)) /\
+    slot (snd (m_run c o m1 xs)) = slot m1.
+  Proof. exact (run_slot_ignored is_sentinel fget fset fdel poke prepare tyok). Qed.
 End C12_spec_property.
+
+(* Two spec_properties on one spec-class instance: a trigger `t` and a
+   dependant `q` declared invalidated_by=["t"] or "*"
+   (Desc/SpecPropDepsModel.v: the owner's mutate_attr / __delattr__ /
+   invalidate_attrs around two descriptors; Desc/SpecPropDepsSpec.v: two
+   two-slot machines that leave each other alone except after an assignment /
+   deletion of the trigger that returned). *)
+Section C12_two_properties.
+  Context {val U P : Type}.
+  Variable is_sentinel : val -> bool.
+  Variables fget_t fget_q : U -> res val * U.
+  Variables fset_t fset_q : U -> val -> res unit * U.
+  Variables fdel_t fdel_q : U -> res unit * U.
+  Variable poke : P -> U -> U.
+  Variables prepare_t prepare_q : val -> res val.
+  Variables tyok_t tyok_q : val -> bool.
+
+  Notation dm_step := (dm_step is_sentinel fget_t fget_q fset_t fset_q fdel_t fdel_q poke prepare_t prepare_q tyok_t tyok_q).
+  Notation dm_run := (dm_run is_sentinel fget_t fget_q fset_t fset_q fdel_t fdel_q poke prepare_t prepare_q tyok_t tyok_q).
+  Notation ds_run := (ds_run is_sentinel fget_t fget_q fset_t fset_q fdel_t fdel_q poke prepare_t prepare_q tyok_t tyok_q).
+  Notation m_reaches := (m_reaches is_sentinel prepare_t tyok_t).
+
+  (* every pair of configurations, managed or not, ["t"] or "*", every
+     sequence of reads / assignments / deletions of either property and state
+     changes: outcomes, both __dict__ entries and the underlying state are
+     those of the two protocol machines *)
+  Theorem C12_two_properties_follow_protocol : forall (d : dcfg) (u : U) xs,
+    fst (dm_run d (dm_init u) xs) = fst (ds_run d (ds_init u) xs) /\
+    dslot_t (snd (dm_run d (dm_init u) xs)) = t_visible (snd (ds_run d (ds_init u) xs)) /\
+    dslot_q (snd (dm_run d (dm_init u) xs)) = q_visible (snd (ds_run d (ds_init u) xs)) /\
+    dmu (snd (dm_run d (dm_init u) xs)) = dsu (snd (ds_run d (ds_init u) xs)).
+  Proof.
+    exact (drun_sim_from_new is_sentinel fget_t fget_q fset_t fset_q fdel_t fdel_q poke
+             prepare_t prepare_q tyok_t tyok_q).
+  Qed.
+
+  (* "raises AttributeError and changes nothing": a rejected assignment to the
+     trigger leaves the whole instance as it was -- the override / cached value
+     of the dependant included *)
+  Theorem C12_rejected_assignment_keeps_dependants : forall (d : dcfg) v m,
+    overridable (d_ct d) = false -> has_fset (d_ct d) = false ->
+    snd (dm_step d m (TAssign v)) = m /\
+    (m_reaches d v = true -> fst (dm_step d m (TAssign v)) = Err AttrErr).
+  Proof.
+    exact (trigger_assignment_rejected is_sentinel fget_t fget_q fset_t fset_q fdel_t fdel_q poke
+             prepare_t prepare_q tyok_t tyok_q).
+  Qed.
+
+  Theorem C12_rejected_deletion_keeps_dependants : forall (d : dcfg) m,
+    has_fdel (d_ct d) = false -> dslot_t m = None ->
+    dm_step d m TDelete = (Err AttrErr, m).
+  Proof.
+    exact (trigger_deletion_rejected is_sentinel fget_t fget_q fset_t fset_q fdel_t fdel_q poke
+             prepare_t prepare_q tyok_t tyok_q).
+  Qed.
+End C12_two_properties.
 
 Section C12_classproperty.
   Context {val U P cid : Type}.
@@ -204,6 +275,30 @@ Example C12_classproperty_run_example :
   = [[1; 8]; [0; 0]; [1; 8]; [1; 320]; [-5; 0]; [0; 0]; [1; 328]].
 Proof. vm_compute. reflexivity. Qed.
 
+(* trigger t: not overridable, no setter (managed `t: int`); dependant q:
+   cache=True, not overridable, invalidated_by=["t"].  read q (cached 100);
+   assign t (rejected, AttributeError, q keeps its cached value); change x
+   (q is not invalidated by x); read q: still 100, getter not run again. *)
+Example C12_rejected_assignment_keeps_cache_example :
+  dm_trace (mkdcase (mkd (mkcfg false false false false true true) true
+                         (mkcfg false true false false true true) false false)
+                    0 0 0 0 0 0 0 [] [])
+    (dm_init (mku 0 None 0)) [QRead; TAssign (VInt 10); XPoke 4; QRead]
+  = [[1; 800; -1; 800; 0; -1; 1]; [-5; 0; -1; 800; 0; -1; 1];
+     [0; 0; -1; 800; 4; -1; 1]; [1; 800; -1; 800; 4; -1; 1]].
+Proof. vm_compute. reflexivity. Qed.
+
+(* ... whereas an assignment to an overridable trigger that returns deletes
+   the dependant's cached value: the next read runs q's getter again *)
+Example C12_successful_assignment_invalidates_example :
+  dm_trace (mkdcase (mkd (mkcfg true false false false true true) true
+                         (mkcfg false true false false true true) false false)
+                    0 0 0 0 0 0 0 [] [])
+    (dm_init (mku 0 None 0)) [QRead; TAssign (VInt 10); XPoke 4; QRead]
+  = [[1; 800; -1; 800; 0; -1; 1]; [0; 0; 80; -1; 0; -1; 1];
+     [0; 0; 80; -1; 4; -1; 1]; [1; 832; 80; 832; 4; -1; 2]].
+Proof. vm_compute. reflexivity. Qed.
+
 Print Assumptions C12_spec_property_follows_protocol.
 Print Assumptions C12_spec_property_simulation.
 Print Assumptions C12_configurations_enumerated.
@@ -214,11 +309,17 @@ Print Assumptions C12_deletion_removes_override_or_cache.
 Print Assumptions C12_stored_value_returned_without_getter.
 Print Assumptions C12_getter_result_prepared_and_type_checked.
 Print Assumptions C12_managed_reads_are_well_typed.
+Print Assumptions C12_own_name_entry_is_not_a_stored_value.
 Print Assumptions C12_classproperty_follows_protocol.
 Print Assumptions C12_classproperty_per_subclass_isolated.
 Print Assumptions C12_classproperty_shared_by_default.
 Print Assumptions C12_classproperty_assignment_rejected.
 Print Assumptions C12_classproperty_deletion_with_nothing_stored.
+Print Assumptions C12_two_properties_follow_protocol.
+Print Assumptions C12_rejected_assignment_keeps_dependants.
+Print Assumptions C12_rejected_deletion_keeps_dependants.
 Print Assumptions C12_protocol_run_example.
 Print Assumptions C12_custom_deleter_keeps_cache_example.
 Print Assumptions C12_classproperty_run_example.
+Print Assumptions C12_rejected_assignment_keeps_cache_example.
+Print Assumptions C12_successful_assignment_invalidates_example.
